@@ -328,3 +328,74 @@ theorem soak_bound (rules : List Rule) (b : UInt32) (m G n0 N : Nat) (hb : n0 + 
   exact h
 
 end Sentinel.C04
+
+namespace Sentinel.C04
+open Sentinel.Iso
+
+/-- **caller writes after a load**: the rule manager keeps the caller's rule *objects* (its slices are its own), so the only caller write
+    that reaches the check is an in-place edit of a loaded rule object (`poke`); it replaces exactly that rule's threshold — every other
+    rule of every resource, the gauges and the handles are untouched, and `admitted_iff_inflight` / `model_eq_reference` then speak
+    about the edited list like about any loaded list.  Overwriting the elements of the slice passed to a load (`sload`, `sloadres`) is
+    not an op of the model at all: the enforced rules are those of the load. -/
+theorem poke_changes_only_that_threshold (rules : List (String × Rule)) (res : String) (idx : Nat) (t : UInt32) (res' : String) :
+    rulesOf (pokeRules rules res idx t) res' =
+      (rulesOf rules res').map fun r => if res' = res ∧ r.idx = idx then { r with thr := t } else r := by
+  unfold rulesOf pokeRules
+  rw [List.filter_map, List.map_map, List.map_map]
+  have hfil : (List.filter ((fun p : String × Rule => decide (p.1 = res')) ∘
+      fun p => if p.1 = res ∧ p.2.idx = idx then (p.1, { p.2 with thr := t }) else p) rules) =
+      List.filter (fun p => decide (p.1 = res')) rules := by
+    congr 1
+    funext p
+    simp only [Function.comp]
+    split <;> rfl
+  rw [hfil]
+  apply List.map_congr_left
+  intro p hp
+  have hp1 : p.1 = res' := by simpa using (List.mem_filter.mp hp).2
+  simp only [Function.comp]
+  by_cases h1 : p.1 = res ∧ p.2.idx = idx
+  · have h2 : res' = res ∧ p.2.idx = idx := by rw [← hp1]; exact h1
+    rw [if_pos h1, if_pos h2]
+  · have h2 : ¬ (res' = res ∧ p.2.idx = idx) := by rw [← hp1]; exact h1
+    rw [if_neg h1, if_neg h2]
+
+end Sentinel.C04
+
+namespace Sentinel.C04
+open Sentinel.Iso
+
+/-! ## Which list is enforced: the latest load, whatever slice the caller used (fixed finding `loadres-raw-slice-alias`, `26e3af6`)
+
+`SpecSt.ideal` is the list the property means: every `load` / `loadres` replaces what it says it replaces, in-place edits (`poke`) apply.
+`Op.loadres true …` is a call through the caller's one reused slice (`sloadres`), `false` a fresh slice per call. -/
+
+/-- **enforced_is_latest_load** (full strength, repaired code): after every history — including reloads of a resource through one
+    reused caller slice, with any number of rules, interleaved with other resources, clears, `LoadRules` and in-place edits — the rule
+    list the gauge machine checks against is the list of the latest loads. -/
+theorem enforced_is_latest_load (h : List Op) (hb : histSize h < 2147483648) :
+    (run {} h).1.rules = (specRun {} h).1.ideal := by
+  obtain ⟨⟨hr, _, _, _⟩, _⟩ := reach h [] hb
+  rw [hr]
+  exact specRun_ideal h {} rfl
+
+/-- in particular a reload through the reused slice with the same number of rules takes effect: the case the pinned code ignored -/
+theorem slice_reuse_reload_takes_effect :
+    (run {} [.loadres true "d" [2], .entry 1 "d" 1, .loadres true "d" [1], .entry 2 "d" 1]).2 = [.none, .pass, .none, .block 0 1] := by
+  decide
+
+/-- **witness for the fixed finding `loadres-raw-slice-alias`** (about the code before `26e3af6`, `rmLoadResOld`): threshold 2 loaded
+    through the caller's slice, then threshold 1 through the same slice: the second load was compared with itself, reported "unchanged"
+    and ignored — threshold 2 stayed enforced. -/
+theorem loadres_alias_witness :
+    rulesOf (rmLoadResOld (rmLoadResOld { rules := [], raw := [], ali := [] } true "d" [2]) true "d" [1]).rules "d"
+      = [{ idx := 0, thr := 2 }] := by
+  decide
+
+/-- … while with a fresh slice per call the pinned code did update (what was true of it) -/
+theorem loadres_alias_fresh_slice_partial (m : RM) (res : String) (ths : List UInt32) :
+    (rmLoadResOld m false res ths).rules = loadResRules m.rules res ths := by
+  unfold rmLoadResOld
+  by_cases h : ths.isEmpty = true <;> simp [h]
+
+end Sentinel.C04
